@@ -63,6 +63,18 @@ def many_structs(n, seed):
     return "\n".join(L) + "\n"
 
 
+def deep_chain(depth):
+    L = ["@group(0) @binding(0) var<storage, read_write> data: array<f32, 4>;",
+         "@group(0) @binding(1) var tex: texture_2d<f32>;",
+         "fn fx0() -> f32 { data[0] = data[0] + 1.0; return f32(textureDimensions(tex).x); }"]
+    for k in range(1, depth + 1):
+        L.append("fn fx%d() -> f32 { return fx%d() + 1.0; }" % (k, k - 1))
+    L.append("@fragment fn fs_main() -> @location(0) vec4<f32> { return vec4<f32>(fx%d()); }"
+             % depth)
+    L.append("@compute @workgroup_size(1) fn cs_main() { data[1] = fx%d(); }" % depth)
+    return "\n".join(L) + "\n"
+
+
 def build_jobs():
     shaders = {}
     for p in sorted(glob.glob(os.path.join(core.VERIF, "gen", "corpus", "*.wgsl"))) + \
@@ -70,6 +82,9 @@ def build_jobs():
         shaders[os.path.basename(p)] = open(p).read()
     for k in range(6):
         shaders["many%d.wgsl" % k] = many_structs(8 + 2 * k, k)
+    # deep call graphs: concurrent walks that share any process-wide state would interfere
+    for depth in (40, 90, 120):
+        shaders["deep%d.wgsl" % depth] = deep_chain(depth)
     jobs = []
     for name, src in sorted(shaders.items()):
         for oi, opt in enumerate(OPTION_SETS):
@@ -325,6 +340,17 @@ def main(tier, replay, t0):
         stats["processes"] += 1
         stats["orders"] += 1
         stats["threads"] = max(stats["threads"], len({r["tid"] for r in res}))
+    # stress: only the deep shaders, many repetitions, all threads inside the walk at once
+    deep = [j for j in jobs if j["id"].startswith("deep") and "#emb" in j["id"]]
+    reps = 40 if tier == "quick" else 300
+    stress = [dict(j) for _ in range(reps) for j in deep]
+    for k in range(2 if tier == "quick" else 5):
+        p, res = core.run_drive(binp, stress, "c18/s%d" % k, threads=16, shuffle=k, cwd=cwd_b)
+        if p.returncode != 0 or len(res) != len(stress):
+            raise core.Inconclusive("stress run failed: %s" % p.stderr[-1500:])
+        record("stress%d" % k, res)
+        stats["processes"] += 1
+    stats["stress_calls"] = len(stress) * (2 if tier == "quick" else 5)
     # formatter on: same directory discipline (no rustfmt.toml), subset of jobs
     if real:
         fj = [dict(j, id=j["id"] + "#fmt", opt=dict(j["opt"], fmt=True)) for j in jobs[::7]]
@@ -337,6 +363,16 @@ def main(tier, replay, t0):
             record("f%d" % k, res)
             stats["processes"] += 1
 
+        # the formatter's speed is not an input: a correct but slow formatter must give the
+        # same bytes as the fast one
+        slow = fj[:8]
+        p, res = core.run_drive(binp, slow, "c18/slow", threads=8, cwd=cwd_b, timeout=600,
+                                extra_env={"PATH": os.path.join(core.VERIF, "stubs", "slow3_ok"),
+                                           "VERIF_REAL_RUSTFMT": real})
+        if p.returncode != 0 or len(res) != len(slow):
+            raise core.Inconclusive("slow formatter run failed: %s" % p.stderr[-1500:])
+        record("slowfmt", res)
+        stats["processes"] += 1
     nontrivial = 0
     samples = []
     for key, hs in sorted(obs.items()):
